@@ -19,6 +19,7 @@ RULE = ('dumps = v2/v3 files whose records draw event ids from a small pool of c
         'string) filters; non-trivial = configuration whose filtered listing was compared with the model; distinct = '
         'distinct (dump, configuration)')
 QUICK_SHARDS = 4
+NO_BB_FLAVOUR = True       # (formatted_kevents prints str(bytes): BytesWarning under -bb on the unchanged tree)
 THOROUGH_SHARDS = 16
 
 CLASSES = [1, 3, 4, 7, 0x25, 0x31, 0xff, 0]
@@ -337,6 +338,19 @@ def run(ctx):
                 check_events(res, f, cfg)
                 if i % 4 == 0 and rng.random() < 0.4:
                     check_cli(res, f, cfg, tmpdir)
+            if i % 4 == 1 and f['records']:
+                # LONG filter lists (a front end that ticks nearly every box): every class but one that the dump uses, plus
+                # entries that are no class numbers at all (256, a subclass-sized value, -1), so that the list has 255,
+                # 256, 257 ... distinct entries; subclass lists of tens of thousands of entries
+                used = sorted({(wire.ref_decode(r)['eventid'] >> 24) & 0xff for r in f['records']})
+                missing = rng.choice(used)
+                for extra in ([], [0x100], [0x100, 0x40c, -1], list(range(0x100, 0x100 + 44)), [0x1ff] * 300):
+                    classes = [c for c in range(256) if c != missing] + extra
+                    rng.shuffle(classes)
+                    check_events(res, f, {'tid': None, 'classes': classes, 'subs': rng.choice(([], [0x40c]))})
+                    res.count('long_filter_lists')
+                subs = [x for x in range(0, 0x10000) if x >> 8 != missing][::rng.choice((1, 3))]
+                check_events(res, f, {'tid': None, 'classes': [], 'subs': subs})
             check_logs(res, f, rng)        # a version-2 dump holds no log records: its log listing is empty
             if i % 8 == 0:
                 check_cli_logs(res, f, rng, tmpdir)
@@ -370,6 +384,7 @@ def run(ctx):
     res.require('cli_configurations', 3)
     res.require('refused_or_abandoned_requests_before_a_listing', 20)
     res.require('history_requests', 20)
+    res.require('long_filter_lists', 20)
     res.require('large_listings', 2)
     res.require('cli_log_listings', 3)
     return res
